@@ -81,16 +81,18 @@ def conforms(value, dtype):
             return True
         except Exception:  # noqa: BLE001
             return False
-    try:
-        return isinstance(value, dtype)
-    except TypeError:
-        return True      # not a class (typing construct): nothing to check
+    # a datatype that is not a class (a typing construct such as frozenset[str]) cannot be dispatched on
+    # by the renderers nor tested by the compiler: announcing it is a violation
+    return isinstance(dtype, type) and isinstance(value, dtype)
 
 
 def check_result(label, desc, rows, dcontext, fails):
     """Values conform to the description; the result renders and numberifies."""
     observed = False
     for j, col in enumerate(desc):
+        if not isinstance(col.datatype, type):
+            fails.append(('datatype-not-a-class', f'{label}: column {col.name!r} announces {col.datatype!r}'))
+            return observed
         for row in rows:
             v = row[j]
             if v is not None:
@@ -269,6 +271,44 @@ def prop_coalesce(sh, case):
     return fails
 
 
+def prop_connectives(sh, case):
+    """AND / OR / NOT / IS [NOT] NULL accept operands of any datatype and announce bool: the value must be a bool (or
+    NULL) whatever the operands hold, in particular falsy non-boolean values (0, 0.00, '', empty set, empty inventory)."""
+    fails = []
+    conn, dcontext = base_connection()
+    kinds = [int, D, str, datetime.date, bool, set, list, dict, AMT, POS, inventory.Inventory, object]
+    c0, c1 = A.Column('c0'), A.Column('c1')
+    true, false = A.Constant(True), A.Constant(False)
+    for a, b in itertools.product(kinds, repeat=2):
+        pa, pb = POOLS[a] + [None], POOLS[b] + [None]
+        rows = [(x, y) for x in pa for y in (pb[0], pb[-2], None)] + [(x, y) for y in pb for x in (pa[0], pa[-2], None)]
+        conn.tables['v'] = htables.HTable('v', [('c0', a), ('c1', b)], rows)
+        exprs = {'c0 AND c1': A.And([c0, c1]), 'c0 OR c1': A.Or([c0, c1]), 'c1 AND c0 AND TRUE': A.And([c1, c0, true]),
+                 'c0 OR c1 OR FALSE': A.Or([c0, c1, false]), 'NOT (c0 AND c1)': A.Not(A.And([c0, c1]))}
+        if a is b:
+            exprs.update({'NOT c0': A.Not(c0), 'c0 AND TRUE': A.And([c0, true]), 'TRUE AND c0': A.And([true, c0]),
+                          'c0 OR FALSE': A.Or([c0, false]), 'FALSE OR c0': A.Or([false, c0]), 'c0 IS NULL': A.IsNull(c0),
+                          'c0 IS NOT NULL': A.IsNotNull(c0), 'str(c0 AND TRUE)': A.Function('str', [A.And([c0, true])])})
+        for text, e in exprs.items():
+            label = f'{text} over ({type_key(a)}, {type_key(b)})'
+            for stmt in (A.Select([A.Target(e, 'r')], A.Table('v'), None, None, None, None, None, None),
+                         A.Select([A.Target(A.Function('first', [e]), 'r'), A.Target(A.Function('max', [e]), 'm')], A.Table('v'),
+                                  None, None, None, None, None, None)):
+                r = execute(conn, stmt)
+                if r[0] == 'ok':
+                    check_result(label, r[1], r[2], dcontext, fails)
+                    if text.startswith('str(') and len(r[2]) == len(rows):
+                        bad = [v[0] for v in r[2] if v[0] not in (None, 'TRUE', 'FALSE', 'True', 'False')]
+                        if bad:
+                            fails.append(('datatype-not-truthful', f'{label}: str() of a bool gives {bad[:3]!r}'))
+                elif r[0] == 'raised':
+                    fails.append((f'accepted-query-raises:{type(r[1]).__name__}:connective', f'{label}: {r[1]!r}'))
+                else:
+                    sh.count('connectives:' + r[0])
+            sh.record(label, True, {'expression': label} if len(sh.samples) < 8 else None, n=len(rows))
+    return fails
+
+
 def prop_pivot(sh, case):
     """Whatever PIVOT BY the compiler accepts must execute type-safely and announce truthful datatypes."""
     fails = []
@@ -365,7 +405,7 @@ def prop_ledger(sh, case):
     return fails
 
 
-PARTS = {'registry': prop_registry, 'coalesce': prop_coalesce, 'pivot': prop_pivot, 'ledger': prop_ledger}
+PARTS = {'registry': prop_registry, 'connectives': prop_connectives, 'coalesce': prop_coalesce, 'pivot': prop_pivot, 'ledger': prop_ledger}
 
 
 def run(sh):
@@ -375,6 +415,9 @@ def run(sh):
     if sh.index == 1 % sh.n:
         for sig, detail in prop_coalesce(sh, None):
             sh.fail(sig, detail, None, 'coalesce')
+    if sh.index == 3 % sh.n:
+        for sig, detail in prop_connectives(sh, None):
+            sh.fail(sig, detail, None, 'connectives')
     if sh.index == 2 % sh.n:
         for sig, detail in prop_pivot(sh, None):
             sh.fail(sig, detail, None, 'pivot')
